@@ -38,6 +38,8 @@ OTHER = [
     "insert into {w} values (1, 2)",
     "update {w} set {c1} = 1",
     "update {w} set {c1} = q.{c2} from {r1} q",
+    "update {w} set {c1} = {c2}",
+    "update {w} set {c1} = {c2} + {c3}, {c4} = 1",
     "drop table {w}",
     "alter table {r1} rename to {w}",
     "delete from {w}",
@@ -95,6 +97,11 @@ def gen_records(r, n, multi=True):
 
 
 SPECIAL = [
+    # a table written by a statement that reads nothing (target-only) and read by a later one through another column
+    "update s.a set x = y;\ninsert into s.b select k from s.a",
+    "update s.a set x = y + z;\ncreate table s.b as select * from s.a",
+    "update s.a set x = y;\ninsert into s.b select k from s.a;\ninsert into s.c select k from s.b",
+    "update t.a set x = z;\nselect k from t.a",
     # same derived-table alias in two union branches (K-C18-1)
     "insert into w select t.x from (select x from s.a) t union all select t.y from (select y from s.b) t",
     # same sub-query text under two aliases
